@@ -264,7 +264,14 @@ def run(chk):
                       and ev.assume(r[2], found, True) == ("fn", "lookup", ("table", svar["id"]), key))
                 (chk.holds if ok else chk.violated)("R5", "ParseEnumeration<%s>" % se, "returns " + ev.show(r)[:300], short(f["loc"]))
             except ev.Inconclusive as x:
-                chk.inconclusive("R5", "ParseEnumeration<%s>" % se, str(x), short(f["loc"]))
+                mut = mutations_of_parameter(F, f, 0)
+                if mut:
+                    # the lookup is not on the string that was given: some string that is not an accepted spelling then parses
+                    # (and an accepted spelling that the rewriting alters no longer does), whatever the rewriting is
+                    chk.violated("R5", "ParseEnumeration<%s>" % se, "the spelling is modified before it is looked up (%s): the table is not searched for the string that was given, "
+                                 "so strings that are not accepted spellings can parse to an enumerator and accepted spellings can stop parsing" % ", ".join(mut[:3]), short(f["loc"]))
+                else:
+                    chk.inconclusive("R5", "ParseEnumeration<%s>" % se, str(x), short(f["loc"]))
         else:
             chk.inconclusive("R5", "ParseEnumeration<%s>" % se, "not instantiated", "")
     chk.floor("enumeration types", n_enums, 39)
@@ -274,6 +281,30 @@ def run(chk):
     chk.coverage["spellings"] = n_spell
     chk.coverage["spellings_decided"] = n_decided
     chk.coverage["spellings_undecided"] = [{"type": a, "spelling": b, "why": c} for a, b, c in undecided[:60]]
+
+
+def mutations_of_parameter(F, f, index):
+    """Non-const member calls on, and assignments to, parameter `index` of f (through casts and parentheses)."""
+    from .. import cg
+    out = []
+
+    def is_param(o):
+        while isinstance(o, dict) and o.get("k") in ("cast", "paren"):
+            o = o.get("e")
+        return isinstance(o, dict) and o.get("k") == "parm" and o.get("i") == index and o.get("fn", f["id"]) == f["id"]
+
+    def visit(n):
+        k = n.get("k")
+        if k == "call" and "obj" in n and is_param(n["obj"]):
+            g = F.fns.get(n.get("f"))
+            if g is not None and g.get("kind") == "method" and not g.get("const") and not g.get("static"):
+                out.append("%s()" % g["sname"])
+        if (k == "cassign" or (k == "bin" and n.get("op") == "=")) and is_param(n.get("l")):
+            out.append("assignment")
+        if k == "call" and "obj" not in n and n.get("a") and F.fns.get(n.get("f"), {}).get("op") in ("=", "+=") and is_param(n["a"][0]):
+            out.append("operator%s" % F.fns[n["f"]]["op"])
+    cg.walk(f.get("body"), visit)
+    return out
 
 
 def _unwrap_sv(v):
